@@ -8,11 +8,26 @@ Open Scope string_scope.
 Definition class_of (m : string) : cls :=
   match find (fun x => String.eqb (fst x) m) contract with Some (_, c) => c | None => CUndoc end.
 
+(** The checks below are evaluated on the held set RECOMPUTED from the site's plan (its ordered
+    Lock/Unlock steps) by [pheld]; [paths_match] cross-checks it against the set the generator's
+    own bookkeeping emitted. *)
+Definition carries (st : site) : bool :=
+  match s_kind st with KCall _ _ _ | KAcq _ _ | KField _ _ _ => true | _ => false end.
+Definition eheld (st : site) : list (slock * bool) := if carries st then pheld (s_path st) else s_held st.
+
+Fixpoint held_eqb (a b : list (slock * bool)) : bool :=
+  match a, b with
+  | [], [] => true
+  | x :: a', y :: b' => slock_eqb (fst x) (fst y) && Bool.eqb (snd x) (snd y) && held_eqb a' b'
+  | _, _ => false
+  end.
+Definition paths_match (st : site) : bool := negb (carries st) || held_eqb (rev (pheld (s_path st))) (s_held st).
+
 (** ** C07: provided class >= documented class, on the node of the receiver File *)
 Definition call_ok (st : site) : bool :=
   match s_kind st with
   | KCall m recv entry =>
-      let h := s_held st in
+      let h := eheld st in
       match class_of m with
       | CRead => has h SRename && (has h (SOp recv) || hasW h SRename)
       | CWrite => has h SRename && (hasW h (SOp recv) || hasW h SRename) &&
@@ -26,7 +41,7 @@ Definition call_ok (st : site) : bool :=
 (** Open is called with the fidRef's openMu held, and [opened] is read under the node lock
     (or the global lock) and written under openMu and the node lock *)
 Definition open_ok (st : site) : bool :=
-  let h := s_held st in
+  let h := eheld st in
   match s_kind st with
   | KCall "Open" (NOf r) _ => hasW h (SOpen r)
   | KCall "Open" _ _ => false
@@ -68,18 +83,23 @@ Definition sacq_ok (facts : list (snode * snode)) (h : list (slock * bool)) (l :
                            match snode_of (fst x), snode_of l with Some a, Some b => below a b | _, _ => false end)) h)
   && (negb (existsb (fun x => is_child (fst x)) h) || has h SRename).
 
-(** every lock on the way (the held list is in acquisition order) was itself a permitted request *)
-Fixpoint chain_ok (facts : list (snode * snode)) (h : list (slock * bool)) (rest : list (slock * bool)) : bool :=
-  match rest with
+(** every step of a plan is permitted: an acquisition satisfies the discipline w.r.t. the locks held
+    at that point (recomputed), a release releases a lock that is held *)
+Fixpoint path_ok (h : list (slock * bool)) (p : list pact) : bool :=
+  match p with
   | [] => true
-  | x :: r => sacq_ok facts h (fst x) && chain_ok facts (h ++ [x]) r
+  | PA l w facts :: r => sacq_ok facts h l && path_ok ((l, w) :: h) r
+  | PR l :: r => has h l && path_ok (filter (fun x => negb (slock_eqb l (fst x))) h) r
   end.
 
-Definition acq_site_ok (st : site) : bool :=
+(** the plan of a site, including the acquisition itself for an acquisition site *)
+Definition full_path (st : site) : list pact :=
   match s_kind st with
-  | KAcq l w => chain_ok (s_facts st) [] (s_held st ++ [(l, w)])
-  | _ => true
+  | KAcq l w => s_path st ++ [PA l w (s_facts st)]
+  | _ => s_path st
   end.
+
+Definition acq_site_ok (st : site) : bool := negb (carries st) || path_ok [] (full_path st).
 
 (** backend calls may block for as long as the backend likes: none is made while holding a
     connection-wide or leaf mutex; under a childMu only with the global lock held for writing *)
@@ -88,8 +108,8 @@ Definition call_leaf_ok (st : site) : bool :=
   | KCall _ _ _ =>
       forallb (fun x => match fst x with
                         | SRename | SOp _ | SOpen _ => true
-                        | SChild _ => hasW (s_held st) SRename
-                        | _ => false end) (s_held st)
+                        | SChild _ => hasW (eheld st) SRename
+                        | _ => false end) (eheld st)
   | _ => true
   end.
 
